@@ -56,6 +56,19 @@ ASSUMPTIONS += [
     "evaluation that raises where design_matrices(formula, second frame) gives a design is a failure; "
     "terms of the class D30 are not judged in this stage (counted)",
 ]
+ASSUMPTIONS += [
+    "prediction stage, declared categories of the new frame: for every design whose formula uses a "
+    "pandas categorical column (the ordered `co`, the unordered `cu`; bare or through C() / T() / S(), "
+    "as grouping factor, inside an interaction grouping, or as effect) one more new frame is made of "
+    "training rows whose categorical columns DECLARE another category list than at training: the levels "
+    "that do not occur in the new rows are dropped (all of them or some), declared order kept; for the "
+    "unordered column now and then the declared list is also reordered; every value was seen at "
+    "training, nothing else is unseen unless a non-categorical grouping variable gets an unseen label.  "
+    "The judge is the same Spec.C05.checkNew / checkNewFromTraining (slots = the training groups of the "
+    "term, cell of a row = its label); the effect's variables count as unchanged (the values are the "
+    "source rows' values), so the effect rows are read from the training block.  60 (thorough: 800) "
+    "more designs are generated over these columns only (family `o`)",
+]
 TRUSTED = ["scipy.linalg.khatri_rao is modelled by the row product (Model/Matrices.lean:khatriRao)"]
 
 EFFECTS = ["1", "x", "f", "x + f", "0 + f", "f:x", "z", "0 + x", "h", "center(x)", "x + z", "C(k)",
@@ -131,6 +144,51 @@ def gen_multi(r):
     icpt = f"(1 | {own})"
     extra = r.choice(["", "", " + x", " + f"])
     return "y ~ " + (f"{icpt} + {slope}" if style == "icpt_first" else f"{slope} + {icpt}") + extra
+
+
+CAT_GROUPINGS = ["co", "cu", "C(co)", "C(cu)", "T(co, 'mid')", "co:h", "C(co):h", "g:C(co)", "T(cu, 'm1')",
+                 "C(co) + g", "C(cu):g", "T(co, 'hi')", "g/C(co)", "h", "g", "S(co)"]
+CAT_EFFECTS = ["1", "x", "0 + C(co)", "C(co)", "T(co, 'mid')", "S(co)", "co", "0 + co", "C(cu)", "cu",
+               "C(co):x", "0 + T(cu, 'm2')", "f", "z", "0 + x", "x + C(co)", "0 + S(cu)"]
+PANDAS_CATEGORICALS = ("co", "cu")
+
+
+def gen_categorical_case(r):
+    """a group-specific term over the pandas categorical columns: as grouping factor (bare, through
+    C() / T() / S(), inside an interaction / a sum / a nesting) or as effect"""
+    cols = {"co", "cu", "f", "g", "h", "x", "z", "k"}
+    while True:
+        eff, grp = r.choice(CAT_EFFECTS), r.choice(CAT_GROUPINGS)
+        if _vars(eff) & _vars(grp) & cols:
+            continue
+        if (_vars(eff) | _vars(grp)) & set(PANDAS_CATEGORICALS):
+            break
+    extra = r.choice(["", "", " + x", " + (1 | h)"])
+    if _vars(extra) & _vars(grp) & cols:
+        extra = ""
+    return f"y ~ ({eff} | {grp})" + extra
+
+
+def redeclare_categories(r, nd, cols):
+    """-> {column: declared list}: the pandas categorical columns `cols` of the new frame `nd` declare
+    another category list than at training: levels that do not occur in `nd` are dropped (all / some),
+    order kept; an unordered column is now and then declared in another order"""
+    out = {}
+    for c in cols:
+        dt = nd[c].dtype
+        if not isinstance(dt, pd.CategoricalDtype):
+            continue
+        cats = list(dt.categories)
+        present = set(nd[c].tolist())
+        absent = [l for l in cats if l not in present]
+        drop = set(absent if r.random() < 0.6 else r.sample(absent, r.randrange(0, len(absent) + 1)))
+        new = [l for l in cats if l not in drop]
+        if not dt.ordered and r.random() < 0.3:
+            r.shuffle(new)
+        if new != cats:
+            nd[c] = pd.Categorical(nd[c].tolist(), categories=new, ordered=bool(dt.ordered))
+            out[c] = [str(l) for l in new]
+    return out
 
 
 def term_labels(t):
@@ -300,13 +358,15 @@ def coding_rule_stage(res, tier, seed, open_ids):
 GROUP_VARS = ["f", "g", "h", "cu", "co", "k"]
 
 
-def new_frames(r, df, dm, n_new, r_plain=None):
+def new_frames(r, df, dm, n_new, r_plain=None, r_cats=None):
     """-> [(new frame, mode, {var: [rows]}, source rows, moved columns)]: rows of the training frame;
     numeric columns moved to midpoints of training values (stay inside the training range, mostly
     non-integer); grouping values replaced by unseen labels (one or two distinct ones per variable) in
     the variables of the earliest grouping factor only, the latest only, all of them, a random subset,
     or none.  With `r_plain` one more frame, drawn from that generator, whose numeric columns are NOT
-    moved (unchanged training rows apart from the unseen grouping labels)."""
+    moved (unchanged training rows apart from the unseen grouping labels).  With `r_cats` (given when
+    the formula uses a pandas categorical column) one more frame whose categorical columns declare
+    another category list than at training (`redeclare_categories`; 6th item of the tuple)."""
     factors = []                                  # variables of each grouping factor, in term order
     for t in dm.group.terms.values():
         vs = sorted(v for v in t.factor.var_names if v in GROUP_VARS)
@@ -314,7 +374,11 @@ def new_frames(r, df, dm, n_new, r_plain=None):
             factors.append(vs)
     allv = sorted({v for vs in factors for v in vs})
     out = []
-    for r, may_move in [(r, True)] * n_new + ([(r_plain, False)] if r_plain is not None else []):
+    cat_used = [v for v in PANDAS_CATEGORICALS if v in dm.model.var_names]
+    plan = [(r, True, False)] * n_new + ([(r_plain, False, False)] if r_plain is not None else [])
+    if r_cats is not None and cat_used:
+        plan.append((r_cats, r_cats.random() < 0.5, True))
+    for r, may_move, recat in plan:
         idx = [r.randrange(len(df)) for _ in range(r.randrange(3, 9))]
         nd = df.iloc[idx].reset_index(drop=True).copy()
         moved = []
@@ -326,6 +390,8 @@ def new_frames(r, df, dm, n_new, r_plain=None):
         chosen = {"first": factors[0] if factors else [], "last": factors[-1] if factors else [],
                   "all": allv, "none": [],
                   "subset": [v for v in allv if r.random() < 0.5]}[pattern]
+        if recat:                   # the categorical columns keep their (seen) values
+            chosen = [v for v in chosen if v not in PANDAS_CATEGORICALS] if r.random() < 0.4 else []
         placed = {}
         for v in chosen:
             rows = sorted(r.sample(range(len(nd)), r.randrange(1, len(nd) // 2 + 1)))
@@ -337,11 +403,12 @@ def new_frames(r, df, dm, n_new, r_plain=None):
                 nd.loc[k, v] = labels[i % 2] if two else labels[0]
             placed[v] = rows
         mode = r.choice(["silent", "warning"] if placed else ["silent", "warning", "error"])
-        out.append((designs.scramble_index(r, nd), mode, placed, idx, moved))
+        declared = redeclare_categories(r, nd, cat_used) if recat else {}
+        out.append((designs.scramble_index(r, nd), mode, placed, idx, moved, declared))
     return out
 
 
-def prediction_requests(r, formula, df, dm, req, n_new, res, r_plain=None):
+def prediction_requests(r, formula, df, dm, req, n_new, res, r_plain=None, r_cats=None):
     """-> [(case extension, c05_new_spec request)] for the objects returned by
     group.evaluate_new_data on generated new frames"""
     import formulae
@@ -349,7 +416,10 @@ def prediction_requests(r, formula, df, dm, req, n_new, res, r_plain=None):
     out = []
     used_cols = [c for c in df.columns if c in dm.model.var_names]
     train_frame = designs.frame_json(designs.dm_frame(dm, df)[used_cols])
-    for j, (nd, mode, placed, idx, moved) in enumerate(new_frames(r, df, dm, n_new, r_plain)):
+    for j, (nd, mode, placed, idx, moved, declared) in enumerate(
+            new_frames(r, df, dm, n_new, r_plain, r_cats)):
+        if declared:
+            res.count("new frames whose categorical columns declare another category list")
         old = formulae.config["EVAL_UNSEEN_CATEGORIES"]
         formulae.config["EVAL_UNSEEN_CATEGORIES"] = mode
         changed = set(moved) | set(placed)
@@ -378,8 +448,9 @@ def prediction_requests(r, formula, df, dm, req, n_new, res, r_plain=None):
             formulae.config["EVAL_UNSEEN_CATEGORIES"] = old
         res.count("prediction_objects")
         used = sorted(v for v in dm.model.var_names if v in nd.columns)
-        out.append(({"stage": "prediction", "new": j, "mode": mode, "source_rows": idx,
-                     "moved": moved, "unseen": {v: rows for v, rows in placed.items()}},
+        out.append((dict({"stage": "prediction", "new": j, "mode": mode, "source_rows": idx,
+                          "moved": moved, "unseen": {v: rows for v, rows in placed.items()}},
+                         **({"declared_categories_of_the_new_frame": declared} if declared else {})),
                     {"op": "c05_new_spec", "_rows": {v: nd[v].tolist() for v in used},
                      "_slices": slices, "formula": formula, "frame": designs.frame_json(nd),
                      "train_frame": train_frame, "src": idx,
@@ -539,7 +610,11 @@ def explore(tier, seed, res=None, replay=None):
                 "widths / labels judged on the derived objects' per-term blocks (effect values read "
                 "from the training block where the effect's variables are unchanged); 80 (thorough: "
                 "1500) more designs with one effect over a sum / nesting of grouping factors and a "
-                "group intercept for only one of the factors; for 40% of the designs one model description "
+                "group intercept for only one of the factors; 60 (thorough: 800) more designs over the "
+                "pandas categorical columns (ordered / unordered; bare, C(), T(), S(); grouping factor or "
+                "effect), and for every design that uses such a column one more new frame of training "
+                "rows whose categorical columns declare another category list (absent levels dropped, "
+                "order kept; unordered: now and then reordered); for 40% of the designs one model description "
                 "(model_description + DesignMatrices) evaluated on the frame and then on a second frame "
                 "(permuted / resampled / relabelled / reassigned / merged groups / fresh), the second "
                 "design judged by the block structure; coding-rule stage on the training "
@@ -555,13 +630,18 @@ def explore(tier, seed, res=None, replay=None):
             cases.append((None, len(cases)))
         for i in range(80 if tier == "quick" else 1500):
             cases.append((None, f"m{i}"))
+        for i in range(60 if tier == "quick" else 800):
+            cases.append((None, f"o{i}"))
     reqs_spec, reqs_model, owners = [], [], []
     reqs_new, owners_new = [], []
     reqs_re, owners_re = [], []
     for f, path in cases:
         r = rng_for(seed, "c05", path)
         df = designs.gen_frame(r, n=r.randrange(12, 30))
-        formula = f or (gen_multi(r) if str(path).startswith("m") else gen_case(r))
+        formula = f or (gen_multi(r) if str(path).startswith("m") else
+                        gen_categorical_case(r) if str(path).startswith("o") else gen_case(r))
+        if str(path).startswith("o"):
+            res.count("formulas: pandas categorical columns as grouping factor / effect (bare, C, T, S)")
         if str(path).startswith("m"):
             res.count("formulas: one effect over a sum / nesting of factors, intercept for one only")
         res.evaluations += 1
@@ -588,7 +668,8 @@ def explore(tier, seed, res=None, replay=None):
         # the objects derived for new frames (own PRNG stream: the training stage is unchanged)
         for ext, rq in prediction_requests(rng_for(seed, "c05", "new", path), formula, df, dm,
                                            req, 2 if tier == "quick" else 3, res,
-                                           rng_for(seed, "c05", "new-plain", path)):
+                                           rng_for(seed, "c05", "new-plain", path),
+                                           rng_for(seed, "c05", "new-categories", path)):
             reqs_new.append(rq)
             owners_new.append(dict(case, **ext))
         # re-evaluation stage: one model description evaluated on this frame, then on another one
